@@ -129,7 +129,11 @@ def ua_confine(ctx):
         bb, t = found
         callee = t['func'].get('fn') or ''
         qargs = [a for a in t['args'] if a['k'] != 'const' and 'JobQueue' in clean_ty(a['pl']['ty'])]
-        qtxt = render(m.expr_of_operand(qargs[0])) if qargs else ''
+        qe = m.expr_of_operand(qargs[0]) if qargs else ('const', '?')
+        qtxt = render(qe)
+        # the queue is the object's own field itself, not something computed from it (a lazily created, cached or swapped queue)
+        if qargs and not (qe[0] == 'field' and qe[2] == 'queue' and qe[1][0] in ('arg', 'upvar', 'var')) and 'self.queue' in qtxt:
+            qtxt = 'computed:' + qtxt.replace('self.queue', 'self .queue')
         # captured pointer = self.data
         data_ok = False
         for b in m.blocks:
@@ -147,6 +151,27 @@ def ua_confine(ctx):
             out.append(ok('UA-confine', key, 'dereferenced only inside the job closure passed to %s on self.queue; pointer = self.data' % short(callee), loc=m.loc(bb), fn=fn.name))
     if n < 5:
         out.append(undecided('UA-confine', 'floor', 'found %d closures dereferencing the payload pointer, expected at least 5' % n))
+    # one queue per value, for the value's whole life: the field is a plain Arc<JobQueue> set by the constructor and never again
+    adt = F.adts.get(DESYNC)
+    key = 'Desync.queue|fixed-at-construction'
+    if not adt:
+        out.append(undecided('UA-confine', key, 'Desync not found'))
+    else:
+        qf = [f_ for v in adt['variants'] for f_ in v['fields'] if f_['name'] == 'queue']
+        from .rules_lw import FieldUse
+        writers = set()
+        for fn in F.crate_fns():
+            u = FieldUse(fn, DESYNC)
+            if u.assigns.get('queue'):
+                writers.add(fn.name)
+        if not qf:
+            out.append(undecided('UA-confine', key, 'Desync has no field `queue`'))
+        elif not clean_ty(qf[0]['ty']).startswith('alloc::sync::Arc<desync::JobQueue'):
+            out.append(bad('UA-confine', key, 'Desync.queue is a `%s`, not a plain Arc<JobQueue>: the queue of a value can change (or come into being) while the value is shared, and jobs on two queues touch one value concurrently' % clean_ty(qf[0]['ty'])[:70]))
+        elif writers:
+            out.append(bad('UA-confine', key, 'Desync.queue is assigned outside the constructor (%s)' % short(sorted(writers)[0])))
+        else:
+            out.append(ok('UA-confine', key, 'Desync.queue is an Arc<JobQueue> that only the constructor sets'))
     return out
 
 
@@ -519,4 +544,49 @@ def ua_leak(ctx):
         out.append(undecided('UA-leak', 'floor', 'the audited Box::into_raw of Desync::new was not found'))
     elif not any(i.verdict == 'violation' for i in out):
         out.append(ok('UA-leak', 'none', '%d leak-capable call(s), all audited' % n))
+    return out
+
+
+IDENTITY_FIELDS = (
+    # (struct, field, expected type prefix, what it names)
+    ('desync::Desync', 'queue', 'alloc::sync::Arc<desync::JobQueue', 'the one queue that serialises access to the value'),
+    ('desync::Desync', 'data', '*mut T', 'the value itself'),
+    ('desync::SchedulerFuture', 'queue', 'alloc::sync::Arc<desync::JobQueue', 'the queue the future\'s operation was scheduled on'),
+    ('desync::SchedulerFuture', 'scheduler', 'desync::Scheduler', 'the scheduler that owns that queue\'s schedule entry'),
+    ('desync::SchedulerFuture', 'id', 'desync::FutureId', 'the id the queue is parked under (WaitingForPoll)'),
+    ('desync::SchedulerFuture', 'result', 'alloc::sync::Arc<', 'the slot the job delivers into'),
+    ('desync::Scheduler', 'core', 'alloc::sync::Arc<desync::SchedulerCore', 'the schedule and the thread table'),
+    ('desync::PipeContext', 'target', 'alloc::sync::Weak<desync::Desync<', 'the object the pipe feeds (weakly)'),
+    ('desync::PipeStream', 'core', 'alloc::sync::Arc<', 'the buffer shared with the producer'),
+    ('desync::UnsafeJob', 'action', '*mut dyn(desync::ScheduledJob)', 'the caller\'s job'),
+)
+
+
+def id_fixed(ctx):
+    """Fields that say *which* object a handle talks about are set when the handle is made and never again, and keep their plain type: no
+    lazily created, cached, swapped or optional identity."""
+    from .rules_lw import FieldUse
+    F = ctx.F
+    out = []
+    n = 0
+    for adt_name, field, ty_prefix, what in IDENTITY_FIELDS:
+        key = '%s.%s|fixed-at-construction' % (adt_name.split('::')[-1], field)
+        adt = F.adts.get(adt_name)
+        if not adt:
+            continue
+        fl = [f_ for v in adt['variants'] for f_ in v['fields'] if f_['name'] == field]
+        if not fl:
+            out.append(undecided('ID-fixed', key, 'field not found'))
+            continue
+        n += 1
+        ty = clean_ty(fl[0]['ty'])
+        writers = sorted(fn.name for fn in F.crate_fns() if FieldUse(fn, adt_name).assigns.get(field))
+        if not ty.startswith(ty_prefix):
+            out.append(bad('ID-fixed', key, '%s.%s (%s) is now a `%s`: an identity that can be absent, replaced or created late is not the same object for every user of the handle' % (adt_name.split('::')[-1], field, what, ty[:60])))
+        elif writers:
+            out.append(bad('ID-fixed', key, '%s.%s (%s) is assigned after construction in %s' % (adt_name.split('::')[-1], field, what, short(writers[0])), fn=writers[0]))
+        else:
+            out.append(ok('ID-fixed', key, 'plain `%s`, set by the constructor only' % ty_prefix.rstrip('<')))
+    if n < 8:
+        out.append(undecided('ID-fixed', 'floor', 'only %d of %d identity fields found' % (n, len(IDENTITY_FIELDS))))
     return out
